@@ -60,6 +60,38 @@ def rule_schema(ck):
     (o.ok() if cols == COLS else o.fail('the header is %s; the CSEP ASCII layout is %s' % (cols, COLS)))
     o = ck.ob('C14-D1.writer', f, w[0] if w else 'csv.DictWriter', w[0] if w else f.node)
     (o.ok() if cols is not None else o.fail('the DictWriter fieldnames are not the header list'))
+    # the rows go into the file the caller named: the target of open() is the filename parameter, or - when the rows are first written
+    # somewhere else - the move onto `filename` lies on every path out of the function, the early return for an empty catalog included
+    opens = [c for c in all_nodes(f) if isinstance(c, ast.Call) and (callee(P, f, c) or '') in ('builtins.open', 'open', 'io.open')]
+    if opens:
+        oo = ck.ob('C14-D1.target', f, opens[0], opens[0])
+        fname = f.positional_params[1] if f.positional_params[0] == 'self' else f.positional_params[0]
+        tgt = ex.expand(opens[0].args[0]) if opens[0].args else None
+        alts = phi_alternatives(tgt) if tgt is not None else []
+        direct = bool(alts) and all(isinstance(a_, ast.Name) and a_.id == fname for a_ in alts)
+        if direct:
+            oo.ok('open(%s, ...)' % fname)
+        else:
+            cfg = f.cfg
+            moves = [c for c in all_nodes(f) if isinstance(c, ast.Call) and (callee(P, f, c) or '') in ('os.replace', 'os.rename', 'shutil.move')
+                     and len(c.args) == 2 and u(c.args[1]) == fname]
+            # the statement at function-body level that holds the move (it may sit under `if target != filename`)
+            tops = []
+            for m_ in moves:
+                st = stmt_of(m_)
+                while getattr(st, '_parent', None) is not f.node and getattr(st, '_parent', None) is not None:
+                    st = st._parent
+                tops.append(st)
+            exits = [r_ for r_ in returns(f)]
+            bad = [r_ for r_ in exits if not any(cfg.node_of(t_) is not None and cfg.node_of(r_) is not None and cfg.dominates(cfg.node_of(t_), cfg.node_of(r_)) for t_ in tops)]
+            if not moves:
+                oo.fail('the catalog is written to `%s`, not to the file the caller named, and nothing moves it there' % u(opens[0].args[0])[:40])
+            elif bad:
+                oo.fail('the rows are written to `%s` and moved onto `%s` afterwards, but the return at L%d leaves before the move: on that path '
+                        '(an empty catalog returns right after the header) the named file is never created or keeps its old content'
+                        % (u(opens[0].args[0])[:30], fname, bad[0].lineno))
+            else:
+                oo.ok('written elsewhere and moved onto the named file on every path')
     # row dict
     rows = [n for n in all_nodes(f) if isinstance(n, ast.Dict) and len(n.keys) >= 6]
     o = ck.ob('C14-D1.row', f, rows[0] if rows else 'row dictionary', rows[0] if rows else f.node)
